@@ -450,37 +450,7 @@ def rule_cli_fwd(repo, col, which=None):
                       'n_obs -> n, n_samp -> m',
                       'biom head does not pass n_obs as n and n_samp as m')
     if 'export' in sel:
-        rel = 'biom/cli/metadata_exporter.py'
-        f = repo.func(rel, 'export_metadata')
-        pairs = {}
-        for n in body_walk(f):
-            if isinstance(n, ast.If) and isinstance(n.test, ast.Name):
-                for c in ast.walk(n):
-                    if isinstance(c, ast.Call) and \
-                            call_name(c) == '_export_metadata' and \
-                            len(c.args) >= 4:
-                        pairs[n.test.id] = (const_str(c.args[1]),
-                                            dotted(c.args[3]), c)
-        for fp, ax in (('sample_metadata_fp', 'sample'),
-                       ('observation_metadata_fp', 'observation')):
-            if fp not in pairs:
-                col.unknown(rule, rel, 'export_metadata', 'file:%s' % ax, f,
-                            'call not found')
-            else:
-                col.check(pairs[fp][0] == ax and pairs[fp][1] == fp, rule,
-                          rel, 'export_metadata', 'file:%s' % ax,
-                          pairs[fp][2], '%s metadata goes to %s' % (ax, fp),
-                          '%s is written with axis %s to %s'
-                          % (fp, pairs[fp][0], pairs[fp][1]))
-        f = repo.func(rel, '_export_metadata')
-        c = [n for n in body_walk(f) if isinstance(n, ast.Call) and
-             (call_name(n) or '').endswith('.metadata_to_dataframe')]
-        from .astutil import arg_of
-        ok = len(c) == 1 and dotted(arg_of(c[0], 0, 'axis')
-                                    or ast.Constant(None)) == 'axis'
-        col.check(ok, rule, rel, '_export_metadata', 'forward:axis',
-                  c[0] if c else f, 'axis forwarded',
-                  'axis is not forwarded to metadata_to_dataframe')
+        _export_metadata_rule(repo, col, rule)
     if 'add-metadata' in sel:
         rel = 'biom/cli/metadata_adder.py'
         f = repo.func(rel, '_add_metadata')
@@ -557,3 +527,226 @@ RULE_TEXT = {
     'OR-REINDEX': 'a non-None index argument derives from the axis it is '
                   'passed for',
 }
+
+
+def _export_metadata_rule(repo, col, rule):
+    """export-metadata: the frame written to `<axis>_metadata_fp` is the one
+    `metadata_to_dataframe(<axis>)` built in this very step.  Decided on the
+    command function and its helper, however the work is split between them:
+    a helper's parameters are bound per call site, loop variables over a
+    literal sequence per element; the frame's definitions are read off the
+    CFG (a statement that raises has not assigned)."""
+    from .cfg import CFG
+    from .astutil import arg_of
+    rel = 'biom/cli/metadata_exporter.py'
+    top = repo.func(rel, 'export_metadata')
+    top_params = set(param_names(top))
+    funcs = [('export_metadata', top)]
+    for q in ('_export_metadata',):
+        if repo.has_func(rel, q):
+            funcs.append((q, repo.func(rel, q)))
+    for r2, q, f in repo.all_functions():
+        if r2 == rel and q not in ('export_metadata', '_export_metadata') \
+                and '.' not in q and not isinstance(f, ast.Lambda):
+            funcs.append((q, f))
+
+    def literal_elems(fn, it):
+        if isinstance(it, ast.Name):
+            defs = [n.value for n in body_walk(fn) if isinstance(
+                n, ast.Assign) and len(n.targets) == 1 and
+                dotted(n.targets[0]) == it.id]
+            if len(defs) != 1:
+                return None
+            it = defs[0]
+        if isinstance(it, (ast.Tuple, ast.List)):
+            return it.elts
+        return None
+
+    def contexts(q, fn, site, depth=0):
+        """bindings name -> expression of export_metadata (or constant)
+        under which `site` runs"""
+        if q == 'export_metadata' or depth > 2:
+            ctxs = [{}]
+        else:
+            ctxs = []
+            for q2, f2 in funcs:
+                if f2 is fn:
+                    continue
+                for c in body_walk(f2):
+                    if isinstance(c, ast.Call) and call_name(c) == q:
+                        ps = param_names(fn)
+                        b = dict(zip(ps, c.args))
+                        for kw in c.keywords:
+                            if kw.arg:
+                                b[kw.arg] = kw.value
+                        for outer in contexts(q2, f2, c, depth + 1):
+                            ctxs.append({k: subst(v, outer)
+                                         for k, v in b.items()})
+        # enclosing loops over literal sequences
+        par = {}
+        for p_ in ast.walk(fn):
+            for ch in ast.iter_child_nodes(p_):
+                par[id(ch)] = p_
+        cur = site
+        loops = []
+        while id(cur) in par:
+            cur = par[id(cur)]
+            if isinstance(cur, ast.For):
+                loops.append(cur)
+        for lp in reversed(loops):
+            elems = literal_elems(fn, lp.iter)
+            if elems is None:
+                continue
+            out = []
+            for ctx in ctxs:
+                for e in elems:
+                    c2 = dict(ctx)
+                    if isinstance(lp.target, ast.Tuple) and isinstance(
+                            e, ast.Tuple) and len(e.elts) == len(
+                            lp.target.elts):
+                        for t, v in zip(lp.target.elts, e.elts):
+                            if isinstance(t, ast.Name):
+                                c2[t.id] = subst(v, ctx)
+                    elif isinstance(lp.target, ast.Name):
+                        c2[lp.target.id] = subst(e, ctx)
+                    out.append(c2)
+            ctxs = out
+        return ctxs
+
+    def subst(e, ctx):
+        if isinstance(e, ast.Name) and e.id in ctx:
+            return ctx[e.id]
+        return e
+
+    def value(e, ctx):
+        e = subst(e, ctx) if e is not None else None
+        if e is None:
+            return None
+        if const_str(e) is not None:
+            return ('const', const_str(e))
+        if isinstance(e, ast.Name) and e.id in top_params:
+            return ('param', e.id)
+        return None
+
+    pairs = {}
+    n_sites = 0
+    for q, fn in funcs:
+        cfg = None
+        for c in body_walk(fn):
+            if not (isinstance(c, ast.Call) and isinstance(
+                    c.func, ast.Attribute) and c.func.attr == 'to_csv'):
+                continue
+            n_sites += 1
+            frame = c.func.value
+            path = arg_of(c, 0, 'path_or_buf')
+            # definitions of the frame
+            if isinstance(frame, ast.Call):
+                defs = [frame]
+                names = None
+            elif isinstance(frame, ast.Name):
+                names = frame.id
+                defs = [n.value for n in body_walk(fn) if isinstance(
+                    n, ast.Assign) and any(dotted(t) == names
+                                           for t in n.targets)]
+            else:
+                col.unknown(rule, rel, q, 'export:frame', c,
+                            'written object not recognised')
+                continue
+            builds = [d for d in defs if isinstance(d, ast.Call) and (
+                call_name(d) or '').endswith('metadata_to_dataframe')]
+            others = [d for d in defs if d not in builds and not (
+                isinstance(d, ast.Constant) and d.value is None)]
+            if not builds or others:
+                col.unknown(rule, rel, q, 'export:frame', c,
+                            'the written frame is not (only) the result of '
+                            'metadata_to_dataframe')
+                continue
+            # freshness inside a loop: every path of the iteration that
+            # reaches the write has built the frame
+            if names is not None:
+                cfg = cfg or CFG(fn)
+                par = {}
+                for p_ in ast.walk(fn):
+                    for ch in ast.iter_child_nodes(p_):
+                        par[id(ch)] = p_
+                cur, loop = c, None
+                while id(cur) in par:
+                    cur = par[id(cur)]
+                    if isinstance(cur, (ast.For, ast.While)):
+                        loop = cur
+                        break
+                if loop is not None:
+                    head = cfg.node(loop)
+                    use = [x for x in cfg.stmt_nodes() if x.kind == 'stmt'
+                           and any(y is c for y in ast.walk(x.stmt)) and
+                           not isinstance(x.stmt, (ast.For, ast.While,
+                                                   ast.If, ast.Try,
+                                                   ast.With))]
+                    inloop = {x for x in cfg.stmt_nodes()
+                              if x.kind == 'stmt' and isinstance(
+                                  x.stmt, ast.Assign) and
+                              x.stmt.value in builds and any(
+                                  y is x.stmt for y in ast.walk(loop))}
+                    if head is None or not use:
+                        col.unknown(rule, rel, q, 'export:fresh', c,
+                                    'loop / write not located in the CFG')
+                    else:
+                        stale = cfg.path_avoiding(head, use[0], inloop)
+                        col.check(not stale, rule, rel, q, 'export:fresh',
+                                  c, 'the frame is built on every path of '
+                                  'the step that writes it',
+                                  '`%s` can be reached in a step that did '
+                                  'not build `%s` (metadata_to_dataframe '
+                                  'raised KeyError, or was skipped): the '
+                                  'frame of the previous axis is written '
+                                  'to this axis\' file'
+                                  % (unparse(c, 50), names))
+            # which axis goes to which file
+            for ctx in contexts(q, fn, c):
+                for b in builds:
+                    av = value(arg_of(b, 0, 'axis'), ctx)
+                    pv = value(path, ctx)
+                    if av is None or pv is None or av[0] != 'const' or \
+                            pv[0] != 'param':
+                        col.unknown(rule, rel, q, 'export:pair', c,
+                                    'axis / file of this write not '
+                                    'resolved')
+                        continue
+                    pairs.setdefault(pv[1], []).append((av[1], c, q))
+    # both files requested: both writes are reached (the two requests are
+    # independent of each other)
+    from .flow import reached_under
+    both = {'sample_metadata_fp': 'a.tsv', 'observation_metadata_fp': 'b.tsv'}
+    for fp, got in sorted(pairs.items()):
+        for ax_, c_, q_ in got:
+            site = c_
+            if q_ != 'export_metadata':
+                # the call of the helper that performs this write
+                site = next((x for x in body_walk(top) if isinstance(
+                    x, ast.Call) and call_name(x) == q_ and any(
+                    dotted(a_) == fp for a_ in list(x.args) + [
+                        k_.value for k_ in x.keywords])), None)
+            if site is None:
+                continue
+            r = reached_under(top, site, both)
+            col.check(r is not False, rule, rel, 'export_metadata',
+                      'independent:%s' % fp, site,
+                      'written whenever it is requested',
+                      'with both files requested the write to %s is not '
+                      'reached (it sits in a branch taken only when the '
+                      'other file is not requested): one of the two '
+                      'exports is silently skipped' % fp)
+    for fp, ax in (('sample_metadata_fp', 'sample'),
+                   ('observation_metadata_fp', 'observation')):
+        got = pairs.get(fp)
+        if not got:
+            col.unknown(rule, rel, 'export_metadata', 'file:%s' % ax, top,
+                        'no write to %s resolved' % fp)
+            continue
+        wrong = [g for g in got if g[0] != ax]
+        col.check(not wrong, rule, rel, 'export_metadata', 'file:%s' % ax,
+                  (wrong or got)[0][1], '%s metadata goes to %s' % (ax, fp),
+                  '%s receives the %s metadata' % (
+                      fp, wrong[0][0] if wrong else ''))
+    col.soft(n_sites >= 1, rule, rel, 'export_metadata', 'instances', top,
+             '%d writes' % n_sites, 'no to_csv write found')
